@@ -14,7 +14,8 @@ ENGINE = "E1"
 TECHNIQUE = "exhaustive enumeration of address/instance objects x frames against literal partition tables"
 RULE = ("82 gear address objects x all 2^16 frames (write, locality, read-back); 98 device addresses and 196+ "
         "instance objects x 24-bit frame slices; decode partition over all 16-bit frames and over 24-bit frames; "
-        "all pairs of address / instance objects for ==; frame sizes 1..64 for refusal; "
+        "all pairs of address / instance objects for ==; frame sizes 1..64 for refusal; the codec again from non-initial "
+        "process states (6 orders of {raw slice writes on widths 8/16/24/32, gear, device, instance} in one process); "
         "distinct = distinct (object kind, outcome) classes")
 ASSUMPTIONS = [
     "reference partition written from IEC 62386-102 7.2 / -103 7.2.1 as quoted in dali/address.py's module docstring",
@@ -46,6 +47,8 @@ def shards(tier):
             out.append(("part24", hb, hb + 4))
     out.append(("eq",))
     out.append(("sizes",))
+    for order in HIST_ORDERS:
+        out.append(("hist", order))
     return out
 
 
@@ -65,6 +68,111 @@ def _same_addr(obj, desc, fam):
     return got == (desc, fam) and type(obj).__name__ == _kindname(desc, fam)
 
 
+def check_gear(res, A, FF, descs, values, tag=""):
+    for desc in descs:
+        obj = R.lib_mkaddr(desc, "gear")
+        bits7 = R.gear_addr_bits(desc)
+        for v in values:
+            f = FF(16, v)
+            obj.add_to_frame(f)
+            exp = (v & 0x01FF) | (bits7 << 9)
+            case = {"t": "gear_rw" + tag, "addr": list(desc), "v": v}
+            if f.as_integer != exp or len(f) != 16:
+                add_violation(res, f"C04:gear-write:{desc[0]}", f"{desc} into {v:#06x} -> {f.as_integer:#06x}, expected {exp:#06x}", case)
+                continue
+            back = A.from_frame(f)
+            if not _same_addr(back, desc, "gear"):
+                add_violation(res, f"C04:gear-readback:{desc[0]}", f"{desc} written into {v:#06x} reads back {back}", case)
+            elif not (back == obj and obj == back) or (back != obj):
+                add_violation(res, f"C04:gear-readback-eq:{desc[0]}", f"read-back object not == original for {desc}", case)
+        res["evaluations"] += len(values)
+        res["distinct"].add(("gear", desc[0]))
+
+
+def check_dev(res, A, FF, descs, frames, tag=""):
+    for desc in descs:
+        obj = R.lib_mkaddr(desc, "device")
+        bits7 = R.dev_addr_bits(desc)
+        for v in frames:
+            f = FF(24, v)
+            obj.add_to_frame(f)
+            exp = (v & 0x01FFFF) | (bits7 << 17)
+            case = {"t": "dev_rw" + tag, "addr": list(desc), "v": v}
+            if f.as_integer != exp or len(f) != 24:
+                add_violation(res, f"C04:dev-write:{desc[0]}", f"{desc} into {v:#08x} -> {f.as_integer:#08x}, expected {exp:#08x}", case)
+                continue
+            back = A.from_frame(f)
+            if v & 0x10000:
+                if not _same_addr(back, desc, "device"):
+                    add_violation(res, f"C04:dev-readback:{desc[0]}", f"{desc} written into {v:#08x} reads back {back}", case)
+                elif not (back == obj and obj == back) or (back != obj):
+                    add_violation(res, f"C04:dev-readback-eq:{desc[0]}", f"read-back object not == original for {desc}", case)
+            elif back is not None:
+                add_violation(res, "C04:event-frame-has-address", f"event frame {f.as_integer:#08x} reads address {back}", case)
+        res["evaluations"] += len(frames)
+        res["distinct"].add(("device", desc[0]))
+
+
+def check_inst(res, A, FF, descs, frames, tag=""):
+    for desc in descs:
+        obj = R.lib_mkinstance(desc)
+        b = R.instance_byte(desc)
+        for v in frames:
+            f = FF(24, v)
+            obj.add_to_frame(f)
+            exp = (v & 0xFF00FF) | (b << 8)
+            case = {"t": "inst_rw" + tag, "inst": list(desc), "v": v}
+            if f.as_integer != exp or len(f) != 24:
+                add_violation(res, f"C04:inst-write:{desc[0]}", f"{desc} into {v:#08x} -> {f.as_integer:#08x}", case)
+                continue
+            back = A.instance_from_frame(f)
+            if back is None or R.lib_instance(back) != desc:
+                add_violation(res, f"C04:inst-readback:{desc[0]}", f"{desc} reads back {back}", case)
+            elif not (back == obj and obj == back) or (back != obj):
+                add_violation(res, f"C04:inst-readback-eq:{desc[0]}", f"instance read back from the frame is not == the {desc[0]} object that was written", case)
+        res["evaluations"] += len(frames)
+        res["distinct"].add(("instance", desc[0]))
+
+
+HIST_ORDERS = [("raw", "gear", "dev", "inst"), ("raw", "inst", "dev", "gear"), ("gear", "raw", "inst", "dev"),
+               ("dev", "gear", "raw", "inst"), ("inst", "raw", "gear", "dev"), ("dev", "inst", "gear", "raw")]
+
+
+def raw_prelude(Frame):
+    """Every slice / bit write and read with hi <= 31 on frames of widths 8, 16, 24, 32: whatever the frame class may
+    remember across objects (keyed by indices, not by width) is populated from every other width first."""
+    n = 0
+    for w in (8, 16, 24, 32):
+        for hi in range(w):
+            for lo in range(hi + 1):
+                f = Frame(w, (1 << w) - 1)
+                f[hi:lo] = 0
+                f[hi:lo]
+                n += 1
+            f = Frame(w)
+            f[hi] = 1
+            f[hi]
+            f.pack, f.as_integer, f.as_byte_sequence
+    return n
+
+
+def run_history(res, A, FF, Frame, order):
+    """The codec is checked again from NON-initial process states: the three families and a raw-slice prelude in
+    several orders inside one process (reduced frame sets; the per-family shards cover the full sets from a fresh process)."""
+    gv = sorted(set(list(range(0, 65536, 257)) + [0, 0xFFFF, 0x01FF, 0xFE00, 0x5A5A, 0xA5A5]))
+    dv = [(a << 16) | l for a in (0x00, 0x01, 0x5B, 0xFE, 0xFF) for l in (0x0000, 0xFFFF, 0x5AA5, 0x00FF, 0xFF00)]
+    tag = ":after:" + ">".join(order)
+    for step in order:
+        if step == "raw":
+            res["evaluations"] += raw_prelude(Frame)
+        elif step == "gear":
+            check_gear(res, A, FF, GEAR, gv, tag)
+        elif step == "dev":
+            check_dev(res, A, FF, DEV, dv, tag)
+        else:
+            check_inst(res, A, FF, INST, dv, tag)
+
+
 def run_shard(shard):
     from dali import address as A
     from dali.frame import ForwardFrame as FF, Frame
@@ -72,24 +180,7 @@ def run_shard(shard):
     res = new_result()
     k = shard[0]
     if k == "gear_rw":
-        for desc in GEAR[shard[1]:shard[2]]:
-            obj = R.lib_mkaddr(desc, "gear")
-            bits7 = R.gear_addr_bits(desc)
-            for v in range(65536):
-                f = FF(16, v)
-                obj.add_to_frame(f)
-                exp = (v & 0x01FF) | (bits7 << 9)
-                case = {"t": "gear_rw", "addr": list(desc), "v": v}
-                if f.as_integer != exp or len(f) != 16:
-                    add_violation(res, f"C04:gear-write:{desc[0]}", f"{desc} into {v:#06x} -> {f.as_integer:#06x}, expected {exp:#06x}", case)
-                    continue
-                back = A.from_frame(f)
-                if not _same_addr(back, desc, "gear"):
-                    add_violation(res, f"C04:gear-readback:{desc[0]}", f"{desc} written into {v:#06x} reads back {back}", case)
-                elif not (back == obj and obj == back) or (back != obj):
-                    add_violation(res, f"C04:gear-readback-eq:{desc[0]}", f"read-back object not == original for {desc}", case)
-            res["evaluations"] += 65536
-            res["distinct"].add(("gear", desc[0]))
+        check_gear(res, A, FF, GEAR[shard[1]:shard[2]], range(65536))
         sample(res, {"gear_rw": [list(d) for d in GEAR[shard[1]:shard[2]]], "frames": 65536})
     elif k == "dev_rw":
         tier = shard[3]
@@ -99,50 +190,16 @@ def run_shard(shard):
         else:
             frames = [(u << 8) | l for l in (0x00, 0x5A, 0xA5, 0xFF) for u in range(65536)] + \
                      [(a << 16) | l for a in (0x00, 0x01, 0x7E, 0x7F, 0x80, 0x81, 0xFE, 0xFF) for l in range(65536)]
-        for desc in DEV[shard[1]:shard[2]]:
-            obj = R.lib_mkaddr(desc, "device")
-            bits7 = R.dev_addr_bits(desc)
-            for v in frames:
-                f = FF(24, v)
-                obj.add_to_frame(f)
-                exp = (v & 0x01FFFF) | (bits7 << 17)
-                case = {"t": "dev_rw", "addr": list(desc), "v": v}
-                if f.as_integer != exp or len(f) != 24:
-                    add_violation(res, f"C04:dev-write:{desc[0]}", f"{desc} into {v:#08x} -> {f.as_integer:#08x}, expected {exp:#08x}", case)
-                    continue
-                back = A.from_frame(f)
-                if v & 0x10000:
-                    if not _same_addr(back, desc, "device"):
-                        add_violation(res, f"C04:dev-readback:{desc[0]}", f"{desc} written into {v:#08x} reads back {back}", case)
-                    elif not (back == obj and obj == back) or (back != obj):
-                        add_violation(res, f"C04:dev-readback-eq:{desc[0]}", f"read-back object not == original for {desc}", case)
-                elif back is not None:
-                    add_violation(res, "C04:event-frame-has-address", f"event frame {f.as_integer:#08x} reads address {back}", case)
-            res["evaluations"] += len(frames)
-            res["distinct"].add(("device", desc[0]))
+        check_dev(res, A, FF, DEV[shard[1]:shard[2]], frames)
         sample(res, {"dev_rw": [list(d) for d in DEV[shard[1]:shard[2]]], "frames": len(frames)})
     elif k == "inst_rw":
         frames = [(0x5A << 16) | l for l in range(65536)] + [(a << 16) | 0x1234 for a in range(256)] + \
                  [(a << 16) | 0xFFFF for a in range(256)]
-        for desc in INST[shard[1]:shard[2]]:
-            obj = R.lib_mkinstance(desc)
-            b = R.instance_byte(desc)
-            for v in frames:
-                f = FF(24, v)
-                obj.add_to_frame(f)
-                exp = (v & 0xFF00FF) | (b << 8)
-                case = {"t": "inst_rw", "inst": list(desc), "v": v}
-                if f.as_integer != exp or len(f) != 24:
-                    add_violation(res, f"C04:inst-write:{desc[0]}", f"{desc} into {v:#08x} -> {f.as_integer:#08x}", case)
-                    continue
-                back = A.instance_from_frame(f)
-                if back is None or R.lib_instance(back) != desc:
-                    add_violation(res, f"C04:inst-readback:{desc[0]}", f"{desc} reads back {back}", case)
-                elif not (back == obj and obj == back) or (back != obj):
-                    add_violation(res, f"C04:inst-readback-eq:{desc[0]}", f"instance read back from the frame is not == the {desc[0]} object that was written", case)
-            res["evaluations"] += len(frames)
-            res["distinct"].add(("instance", desc[0]))
+        check_inst(res, A, FF, INST[shard[1]:shard[2]], frames)
         sample(res, {"inst_rw": [list(d) for d in INST[shard[1]:shard[2]]], "frames": len(frames)})
+    elif k == "hist":
+        run_history(res, A, FF, Frame, shard[1])
+        sample(res, {"history_order": list(shard[1])})
     elif k == "part16":
         kinds = [c for c in A.Address._addrtypes if c.__name__ not in ("GearAddress", "DeviceAddress")]
         for v in range(65536):
@@ -255,6 +312,9 @@ def run_shard(shard):
 
 def replay(case):
     t = case["t"]
+    if ":after:" in t:
+        order = tuple(t.split(":after:")[1].split(">"))
+        return run_shard(("hist", order))["violations"]
     if t == "gear_rw":
         i = GEAR.index(tuple(case["addr"]))
         vs = run_shard(("gear_rw", i, i + 1))["violations"]
